@@ -354,7 +354,7 @@ var c09URLs = []string{"http://[::1", "%zz", "", " ", "http://ocsp.test/\x01\x7f
 
 var c09Serials = []int{1, 20, 40, 150}
 
-var c09Answers = []string{"good", "revoked", "transport-error", "http-404(genuine body)", "empty-body", "garbage", "cancel-during-request"}
+var c09Answers = []string{"good", "good-without-content-length", "revoked", "transport-error", "http-404(genuine body)", "empty-body", "garbage", "cancel-during-request"}
 
 func c09Hostile(c *mc.Ctx) {
 	kind := []string{"ocsp", "crl", "both", "freshest-in-cert", "freshest-in-base-crl"}[c.ChooseFree("url-position", 5)]
@@ -366,8 +366,8 @@ func c09Hostile(c *mc.Ctx) {
 	root := pki.Issue(pki.RootTmpl("c09 root"), pki.K("p256-a"), nil, nil)
 	lt := pki.LeafTmpl("c09 leaf")
 	lt.Serial = new(big.Int).SetBytes(bytes.Repeat([]byte{0x21}, serialLen))
-	good := "http://ocsp.test/c0/r1"
-	goodCRL := "http://crl.test/c0/dp1/base"
+	good := ocspURL(0, 1)
+	goodCRL := crlURL(0, 1)
 	switch kind {
 	case "ocsp":
 		lt.OCSP = []string{u, good}
@@ -412,7 +412,7 @@ func c09Hostile(c *mc.Ctx) {
 		} else {
 			spec := pki.CRLSpec{Issuer: root, Number: 10, NextUpdate: pki.Now.Add(24 * time.Hour)}
 			if kind == "freshest-in-base-crl" && !strings.HasSuffix(rq.URL, "/delta") {
-				spec.Freshest = pki.CDPValue([][]string{{"uri:" + u}, {"uri:http://crl.test/c0/dp1/delta"}})
+				spec.Freshest = pki.CDPValue([][]string{{"uri:" + u}, {"uri:" + strings.TrimSuffix(crlURL(0, 1), "base") + "delta"}})
 			}
 			if strings.HasSuffix(rq.URL, "/delta") {
 				ind := int64(10)
@@ -424,6 +424,8 @@ func c09Hostile(c *mc.Ctx) {
 			genuine = netsim.Answer{Status: 200, Body: pki.ForgeCRL(spec)}
 		}
 		switch ans {
+		case "good-without-content-length":
+			genuine.NoLength = true
 		case "transport-error":
 			return netsim.Answer{Err: netsim.ErrTransport}
 		case "http-404(genuine body)":
